@@ -12,21 +12,25 @@ SANITIZER_RE = re.compile(r"(ERROR: AddressSanitizer[^\n]*|ERROR: UndefinedBehav
 
 
 def classify_crash(rc, stderr_text):
-    """violation class + detail for a worker that died"""
-    m = SANITIZER_RE.search(stderr_text or "")
-    frames = re.findall(r"#\d+ 0x[0-9a-f]+ in (\S+) (\S+)", stderr_text or "")
-    top = ""
+    """violation class + detail for a worker that died; the class names the error kind and the innermost pomerol function"""
+    err = stderr_text or ""
+    m = None
+    for m in re.finditer(r"ERROR: AddressSanitizer: ([a-zA-Z\-]+)[^\n]*", err):
+        pass  # keep the last one (the one that killed the worker)
+    tail = err[m.start():] if m else err[-8000:]
+    frames = re.findall(r"#\d+ 0x[0-9a-f]+ in (.+?) (/\S+)", tail)
+    top = topfn = ""
     for fn, loc in frames:
-        if "/src/pomerol/" in loc or "/include/pomerol/" in loc or "/mpi_dispatcher/" in loc or "/src/mpi_dispatcher" in loc:
-            top = "%s %s" % (fn, os.path.basename(loc)); break
+        if "/src/pomerol/" in loc or "/include/pomerol/" in loc or "mpi_dispatcher" in loc:
+            topfn = "::".join(re.sub(r"\(.*", "", fn).split("::")[-2:]).replace("Pomerol::", "")
+            top = "%s %s" % (re.sub(r"\(.*", "", fn), os.path.basename(loc)); break
     if m:
-        kind = "asan"
-        mm = re.search(r"AddressSanitizer: ([a-zA-Z\-]+)", m.group(1))
-        if mm: kind = "asan:" + mm.group(1)
-        return kind, (m.group(1) + (" in " + top if top else ""))[:400]
+        return "asan:%s%s" % (m.group(1), ":" + topfn if topfn else ""), (m.group(0) + (" in " + top if top else ""))[:400]
+    if "AddressSanitizer:DEADLYSIGNAL" in err or "AddressSanitizer" in err[-3000:]:
+        return "asan:deadly-signal%s" % (":" + topfn if topfn else ""), ("AddressSanitizer deadly signal" + (" in " + top if top else ""))[:400]
     if rc < 0:
         return "crash:signal%d" % (-rc), "worker killed by signal %d %s" % (-rc, top)
-    return "crash:exit%d" % rc, "worker exited with status %d %s" % (rc, (stderr_text or "")[-300:].replace("\n", " | "))
+    return "crash:exit%d" % rc, "worker exited with status %d %s" % (rc, err[-300:].replace("\n", " | "))
 
 
 class Worker:
@@ -74,7 +78,9 @@ def run_batch(exe, base_seed, nruns, time_limit, cfg="", nworkers=None, extra=No
             line = wk.proc.stdout.readline()
             if line:
                 if line.startswith("START "):
-                    wk.cur_seed = int(line.split()[1])
+                    wk.cur_seed = int(line.split()[1]); wk.cur_cfg = ""
+                elif line.startswith("CFG "):
+                    wk.cur_cfg = line.split(" ", 2)[2].strip() if line.count(" ") >= 2 else ""
                 elif line.startswith("RESULT "):
                     try:
                         r = json.loads(line[7:])
@@ -94,7 +100,7 @@ def run_batch(exe, base_seed, nruns, time_limit, cfg="", nworkers=None, extra=No
                 err = open(wk.errpath).read()[-20000:]
                 if wk.cur_seed is not None:
                     cls, det = classify_crash(rc, err)
-                    crashes.append({"seed": wk.cur_seed, "verdict": cls, "detail": det, "rc": rc, "stderr": err[-6000:]})
+                    crashes.append({"seed": wk.cur_seed, "verdict": cls, "detail": det, "rc": rc, "stderr": err[-6000:], "cfg": getattr(wk, "cur_cfg", "")})
                     wk.seed = wk.cur_seed + wk.step
                     wk.left -= 1
                     wk.cur_seed = None
@@ -132,13 +138,16 @@ def run_single(exe, seed, cfg=None, choices=None, default_choices=False, want_ch
         rc, out, err = -9, "", "timeout"
     finally:
         if cf: os.remove(cf.name)
+    seen_cfg = cfg or ""
     for line in out.splitlines():
+        if line.startswith("CFG ") and line.count(" ") >= 2:
+            seen_cfg = line.split(" ", 2)[2].strip()
         if line.startswith("RESULT "):
             r = json.loads(line[7:])
             r["stderr"] = err[-4000:]
             return r
     cls, det = classify_crash(rc, err)
-    return {"seed": seed, "verdict": cls, "detail": det, "cfg": cfg or "", "hash": "crash", "stats": {}, "probes": {}, "ubsan": [], "sig": "", "stderr": err[-6000:], "choices": choices or []}
+    return {"seed": seed, "verdict": cls, "detail": det, "cfg": seen_cfg, "hash": "crash:" + cls, "stats": {}, "probes": {}, "ubsan": [], "sig": "", "stderr": err[-6000:], "choices": choices}
 
 
 # ---- minimisation ------------------------------------------------------------------------------------------
@@ -189,7 +198,8 @@ def minimise(exe, seed, first, workload_keys, classify=None, budget_runs=250, bu
     t0 = time.time()
     cls = first["verdict"]
     cfg = cfg_parse(first["cfg"])
-    choices = list(first.get("choices") or [])
+    choices = first.get("choices")
+    choices = list(choices) if choices is not None else None   # None: the run died before reporting its choice log -> schedule is re-derived from the seed
     runs = [0]
 
     def attempt(cfg_d, ch):
@@ -226,6 +236,9 @@ def minimise(exe, seed, first, workload_keys, classify=None, budget_runs=250, bu
                         cfg, best, progress = newcfg, r, True
                         break
     # (3) schedule / fault trace: zero out and cut blocks of the choice log (ddmin style)
+    if choices is None:
+        r = attempt(cfg, [])
+        if r: choices, best = [], r
     if choices:
         r = attempt(cfg, [])
         if r: choices, best = [], r
@@ -246,7 +259,8 @@ def minimise(exe, seed, first, workload_keys, classify=None, budget_runs=250, bu
         if not changed: n = min(len(choices) or 1, n * 2)
         if n <= 0: break
     while choices and choices[-1] == 0: choices.pop()
-    if log: log("minimised in %d re-runs (%.1fs): cfg='%s' non-default choices=%d" % (runs[0], time.time() - t0, cfg_str(cfg), sum(1 for x in choices if x)))
+    if log and choices is None: log("schedule kept as derived from the seed (the run dies before it can report its choice log)")
+    if log: log("minimised in %d re-runs (%.1fs): cfg='%s' non-default choices=%d" % (runs[0], time.time() - t0, cfg_str(cfg), sum(1 for x in (choices or []) if x)))
     return cfg_str(cfg), choices, best, runs[0]
 
 
